@@ -1425,7 +1425,11 @@ impl Scenario for C07 {
          reader tasks, and then ENUMERATES for every PDU of the sequence and every applicable \
          library read entry point: every truncation offset (EOF after k bytes) and a stall at \
          sampled offsets, every single-bit flip of the 8-byte header, and targeted rewrites of type, \
-         length and version. evaluations = number of (stream, reader, fault, fragmentation) cases \
+         length and version. The same faults are then applied one level up: a whole reply (data \
+         response to a Reset or Serial Query, Cache Reset + response, Error Report with any code, version \
+         downgrade) is read by the real rtr::Client::step() on a paused tokio clock under every \
+         truncation offset, every header corruption of every PDU and every PDU of the data response \
+         restamped to every other supported version. evaluations = number of (stream, reader, fault, fragmentation) cases \
          executed. A case is non-trivial if a library reader was actually polled on it; distinct = \
          distinct hash of (reader, faulted stream bytes, eof flag) counted in a bitmap (lower bound)."
     }
@@ -1439,11 +1443,13 @@ impl Scenario for C07 {
                 "rpki::rtr::pdu::EndOfData::{new,write,read_payload}",
                 "rpki::rtr::pdu::Error::{new,write,skip_payload}",
                 "rpki::rtr::pdu::{Header,SerialQueryPayload}::read",
-                "tokio::io::{AsyncReadExt::read_exact, AsyncWriteExt::write_all}",
+                "rpki::rtr::client::Client::{with_initial_version,step,update,serial,reset,apply} incl. FirstSerialReply/FirstResetReply, version negotiation and IO_TIMEOUT (client level)",
+                "tokio::io::{AsyncReadExt::read_exact, AsyncWriteExt::write_all}, tokio::time (paused clock) at the client level",
             ],
             vec![
                 "SimSocket/pipe (in-memory stream, simulator-controlled delivery, short reads/writes, spurious Pending, back-pressure, EOF)",
                 "hand scheduler (flag wakers) for writer and reader tasks",
+                "client level: the cache is a byte string built by the independent codec and injected into the simulated socket (closed or left open afterwards); ModelTarget records what the client hands on",
                 "independent RFC 6810/8210/8210bis codec and per-entry-point reference model (oracle)",
             ],
         )
